@@ -48,6 +48,40 @@ Proof. exact l002_fix_clears. Qed.
 Theorem C17_l003_fix_clears : forall t, i_l003_check (i_l003_fix t) = [].
 Proof. exact (fun t => l003_fix_clears_mx space sp_nodelim 1 t (le_n 1)). Qed.
 
+(* ---- exactness: a rule flags exactly the defect its name states, at an existing location ----
+   The lines are the classified lines [clines t] of the whole text: (starts in code?, characters with their class).
+   L001 trailing whitespace: the line ends in a space or tab that is code or the tail of a -- comment. *)
+Theorem C17_l001_check_exact : forall t n col,
+  In (n, col) (l001_check t) <->
+  exists fl, nth_error (clines t) (n - 1) = Some fl /\ 1 <= n /\ ends_tblank (snd fl) /\
+             col = S (blen (chars (trim_r tblank (snd fl)))).
+Proof. exact l001_check_exact. Qed.
+Theorem C17_l001_location : forall t n col, In (n, col) (l001_check t) ->
+  exists fl, nth_error (clines t) (n - 1) = Some fl /\ 1 <= n <= length (clines t) /\ 1 <= col <= S (blen (chars (snd fl))).
+Proof. exact l001_location. Qed.
+(* L002 mixed indentation: the code indentation of the line mixes tabs and spaces, or differs from the first pure style *)
+Theorem C17_l002_check_exact : forall t n col,
+  In (n, col) (l002_check t) <->
+  col = 1 /\ 1 <= n /\ exists fl, nth_error (clines t) (n - 1) = Some fl /\ l002_defect 0 (firstn (n - 1) (clines t)) (snd fl).
+Proof. exact l002_check_exact. Qed.
+Theorem C17_l002_location : forall t n col, In (n, col) (l002_check t) ->
+  1 <= n <= length (clines t) /\ col = 1 /\ exists fl, nth_error (clines t) (n - 1) = Some fl /\ take_l lblank (snd fl) <> [].
+Proof. exact l002_location. Qed.
+(* L003 consecutive blank lines: line n starts a run of more than one blank line of code *)
+Theorem C17_l003_check_exact : forall t n col,
+  In (n, col) (i_l003_check t) <->
+  col = 1 /\ 1 <= n /\ startsG space 0 (clines t) (n - 1) /\ 1 < run_from space (clines t) (n - 1).
+Proof. exact (l003_check_exact space 1). Qed.
+Theorem C17_l003_location : forall t n col, In (n, col) (i_l003_check t) -> 1 <= n <= length (clines t) /\ col = 1.
+Proof. exact (l003_location space 1). Qed.
+(* L005 long lines: a non-empty line that does not start with a comment opener and is longer than the limit, in bytes *)
+Theorem C17_l005_check_exact : forall mx t n col,
+  In (n, col) (i_l005_check mx t) <->
+  exists fl, nth_error (clines t) (n - 1) = Some fl /\ 1 <= n /\ chars (snd fl) <> [] /\
+            (starts2 45 45 (i_trim_space (chars (snd fl))) || starts2 47 42 (i_trim_space (chars (snd fl)))) = false /\
+            mx < blen (chars (snd fl)) /\ col = S mx.
+Proof. exact (l005_check_exact space). Qed.
+
 Print Assumptions C17_l001_tokens_preserved.
 Print Assumptions C17_l002_tokens_preserved.
 Print Assumptions C17_l003_tokens_preserved.
@@ -63,6 +97,13 @@ Print Assumptions C17_l007_fix_idempotent.
 Print Assumptions C17_l001_fix_clears.
 Print Assumptions C17_l002_fix_clears.
 Print Assumptions C17_l003_fix_clears.
+Print Assumptions C17_l001_check_exact.
+Print Assumptions C17_l001_location.
+Print Assumptions C17_l002_check_exact.
+Print Assumptions C17_l002_location.
+Print Assumptions C17_l003_check_exact.
+Print Assumptions C17_l003_location.
+Print Assumptions C17_l005_check_exact.
 
 (* ---- non-vacuity: concrete, non-trivial texts; the fixers do change them, the literals are kept ---- *)
 Local Open Scope N_scope.
